@@ -134,6 +134,22 @@ def pol2car (ri : K) (ncp ncmar : Nat) (mask : Bool) (interp : K) (row col : Nat
 /-- `np.clip(x, lo, hi)` -/
 def clip (x lo hi : K) : K := if x ≤ lo then lo else if hi ≤ x then hi else x
 
+/-- `np.concatenate((pol, pol[:, :1]), axis=1)` of the repaired `pol2car` : column `npp` is column 0 again, the azimuth
+is closed -/
+def wrapCol {α : Type} (npp : Nat) (pol : Nat → Nat → α) (a b : Nat) : α := if b = npp then pol a 0 else pol a b
+
+/-- order-1 interpolation between two neighbouring samples, weight `u` on the second one -/
+def lerp (u x y : K) : K := (((1 : Nat) : K) - u) * x + u * y
+
+/-- `map_coordinates(pol, [[a + u], [b + v]], order=1)` for `0 ≤ u, v < 1` : bilinear interpolation in the cell
+`(a, b)` -/
+def bilin (pol : Nat → Nat → K) (a b : Nat) (u v : K) : K :=
+  lerp u (lerp v (pol a b) (pol a (b + 1))) (lerp v (pol (a + 1) b) (pol (a + 1) (b + 1)))
+
+/-- azimuthal interpolation coordinate `cp` of a pixel from its angle index `phi = (arctan2 + 2π) % 2π · npp/2π`
+(repaired `pcgeom`: the upper clip no longer cuts the last cell off) -/
+def cpCoord (npp : Nat) (phi : K) : K := clip phi (1e-3 : K) ((npp : K) - (1e-3 : K))
+
 /-- radial interpolation coordinate `cr` of a pixel -/
 def crCoord (ri : K) (nr ncp ncmar row col : Nat) : K :=
   clip (((cr2 (K := K) ncp ncmar row col) - ri ^ (2 : Nat)) / (((1 : Nat) : K) - ri ^ (2 : Nat)) * (nr : K))
